@@ -1,6 +1,6 @@
 use crate::nodes::{
-    Block, Expression, FieldExpression, Identifier, IndexExpression, Prefix, TableEntry,
-    TableExpression, TableFieldEntry, Variable,
+    Block, Expression, FieldExpression, Identifier, IndexExpression, Position, Prefix, TableEntry,
+    TableExpression, TableFieldEntry, Token, Variable,
 };
 use crate::process::utils::is_valid_identifier;
 use crate::process::{DefaultVisitor, Evaluator, LuaValue, NodeProcessor, NodeVisitor};
@@ -20,8 +20,27 @@ struct Converter {
 impl Converter {
     #[inline]
     fn convert_index_to_field(&self, index: &IndexExpression) -> Option<FieldExpression> {
-        self.convert_to_field(index.get_index())
-            .map(|key| FieldExpression::new(index.get_prefix().clone(), Identifier::new(key)))
+        self.convert_to_field(index.get_index()).map(|key| {
+            FieldExpression::new(
+                index.get_prefix().clone(),
+                Self::field_identifier(key, index.get_index()),
+            )
+        })
+    }
+
+    /// Creates the field name on the line of the string it comes from.
+    fn field_identifier(key: String, key_expression: &Expression) -> Identifier {
+        let line_number = match key_expression {
+            Expression::String(string) => string.get_token().and_then(Token::get_line_number),
+            _ => None,
+        };
+
+        if let Some(line_number) = line_number {
+            let token = Token::from_position(Position::line_number(key.clone(), line_number));
+            Identifier::new(key).with_token(token)
+        } else {
+            Identifier::new(key)
+        }
     }
 
     fn convert_to_field(&self, key_expression: &Expression) -> Option<String> {
@@ -79,7 +98,12 @@ impl NodeProcessor for Converter {
             let replace_with = match entry {
                 TableEntry::Index(entry) => self
                     .convert_to_field(entry.get_key())
-                    .map(|key| TableFieldEntry::new(key, entry.get_value().clone()))
+                    .map(|key| {
+                        TableFieldEntry::new(
+                            Self::field_identifier(key, entry.get_key()),
+                            entry.get_value().clone(),
+                        )
+                    })
                     .map(TableEntry::from),
 
                 TableEntry::Field(_) | TableEntry::Value(_) => None,
